@@ -91,6 +91,9 @@ func raceC11(scn *Scenario) *RunResult {
 	outs := make([][]string, len(c.Tasks))
 	var wg sync.WaitGroup
 	start := make(chan struct{})
+	indexOf(subject) // made here, by one goroutine; read-only for the others
+	indexFrozen = true
+	defer func() { indexFrozen = false }()
 	for ti := range c.Tasks {
 		ti := ti
 		wg.Add(1)
